@@ -50,6 +50,8 @@ def _gen_content(rng, kind_bias=None):
         spec["linemax"] = rng.choice([5, 40, 120, 500, 5000, 20000])
         spec["multi"] = rng.choice([0, 5, 30, 90])
         spec["final_nl"] = 1 if rng.chance(50) else 0
+        if rng.chance(10):
+            spec["bom"] = 1
     return spec
 
 
